@@ -54,7 +54,8 @@ def _opt_value(name):
     if name == "hurst":
         return st.one_of(st.floats(0.101, 0.999), st.sampled_from([0.1, 1.0, 0.5, 0.05, 1.2]))
     if name == "len_low":
-        return st.one_of(st.just(0.0), logfloat(1e-3, 1e2), st.sampled_from([-1.0, math.inf]))
+        # incl. lower cut-offs that are tiny in absolute terms (the variance factor follows them exactly)
+        return st.one_of(st.just(0.0), logfloat(1e-3, 1e2), st.sampled_from([-1.0, math.inf]), st.sampled_from([1e-8, 3e-9, 5e-8, 1e-10]))
     return st.floats(-1, 1)
 
 
